@@ -71,7 +71,7 @@ REFS = {k: '4/' + k for k in T}
 LEVEL = {'C14': 'fault_enumeration'}
 
 # properties whose module is finished, reviewed and quiet on the current tree (edit by hand)
-BUILT = ['C01', 'C02', 'C03', 'C04', 'C05', 'C06', 'C07', 'C08', 'C09', 'C10', 'C11', 'C12', 'C13', 'C14', 'C15', 'C16', 'C17', 'C20']
+BUILT = ['C01', 'C02', 'C03', 'C04', 'C05', 'C06', 'C07', 'C08', 'C09', 'C10', 'C11', 'C12', 'C13', 'C14', 'C15', 'C16', 'C17', 'C18', 'C19', 'C20']
 built = sorted(p for p in BUILT if os.path.exists(os.path.join(HERE, 'props', p.lower() + '.py')))
 checks = []
 for pid in built:
